@@ -109,4 +109,11 @@ PROPS = {
         note="Canonical goroutine schedule per sequence; messages 10 ms apart; hop limits in the sequence alphabet are 64 and 1 (all 256 in the single-message sweep of the thorough tier).",
         parts=[part("sequences", "internal/corerad", "TestVerifC09", mode="sched", gomaxprocs=2, shards={"quick": 12, "thorough": 16})],
     ),
+    "C18": dict(
+        level="model_checking", engine="seq",
+        technique="bounded-exhaustive enumeration of received-message sequences executed on the instrumented real Monitor under a virtual clock; all eight monitor series compared with a map-based reference model after every message",
+        text="Every single message shape x sender (with/without zone, link-local, global, unspecified) x receipt gap, and all sequences up to length L over a 16-event sub-alphabet built to make labels collide, are delivered through the real listener to the real Monitor; after every message the complete set of corerad_monitor_* samples must equal a reference model (counter per sender without zone and type, gauges overwritten per labels, expiry = receipt second + lifetime, default-route gauge only for non-zero lifetime), and Run must not return.",
+        note="Messages are delivered as Go values by the fake connection (not through the wire codec); canonical goroutine schedule; header values outside the alphabet not covered.",
+        parts=[part("messages", "internal/corerad", "TestVerifC18", mode="sched", gomaxprocs=2, shards={"quick": 8, "thorough": 16})],
+    ),
 }
